@@ -49,6 +49,18 @@ CHECKS["C01"] = dict(
          "an error shared by the library's encoder and decoder cannot hide.",
     design_ref="DESIGN.md section 6 C01", note=QR_TRUST + " Sampled over texts; exhaustive over (version, level, mode) boundaries only in the thorough tier.",
     technique="TLA+ reference encoder/decoder (ISO 18004), TLC model checking of their round trip + trace validation of real write/read calls")
+CHECKS["C05"] = dict(
+    category="fault_enumeration",
+    text="Fault scripts are written in the standard's own coordinates (block, codeword-in-block, xor value; format / version copy and "
+         "bit) and turned into module flips through placement maps that TLC computes from ISO 18004 / ISO 16022 (not from the library). "
+         "They are applied to symbols written by the real encoder and decoded by the real decoder; TLC re-derives every script, decides "
+         "whether it is within capacity (<= floor(ec/2) codewords per block, <= 3 bits per format/version copy) and requires the original "
+         "text. Single-codeword faults enumerate every codeword position of every block (quick: QR versions 1,5,7,10,14 fully, 27/40 "
+         "strided; thorough: all 160 pairs), full-capacity scripts hit every block at once, all C(15,<=3) format subsets are enumerated; "
+         "scripts one codeword beyond capacity must give an error or the right text. MC_QR proves the BCH minimum distances (7 / 8).",
+    design_ref="DESIGN.md section 6 C05",
+    note=QR_TRUST + " Replacement values are sampled. Texts are compared through CRC-32 digests computed by the harness.",
+    technique="fault enumeration driven by TLA+ placement/block-structure specs; TLC validates every script and outcome")
 
 NOT_YET = {
 }
